@@ -73,4 +73,4 @@ func RunProgram(chunks []*Node) ([]Event, error) {
 }
 
 // CoreFeatures: the feature set covered by spec and generator.
-var CoreFeatures = Features{Control: true, Fn: true, Exc: true, Logic: true, XCap: true, RestOpts: true, Pipes: true, More: true, ErrRate: 1}
+var CoreFeatures = Features{Control: true, Fn: true, Exc: true, Logic: true, XCap: true, RestOpts: true, Pipes: true, More: true, Del: true, ErrRate: 1}
